@@ -127,7 +127,10 @@ TSkip == /\ l <= Len(Trace)
          /\ l' = NextBegin
          /\ UNCHANGED vars
 
-TraceSpec == TraceInit /\ [][TraceNext \/ TSkip]_<<vars, l>>
+\* A scenario is accepted iff SOME branch of the specification consumes it up to its End line (where logged
+\* arguments leave a choice the branches that guessed wrong die on the way and are reported by TSkip, too):
+SegOk == (l <= Len(Trace) /\ Trace[l].ev = "End") => PrintT(<<"TRACE_SEGMENT_OK", l>>)
+TraceSpec == TraceInit /\ [][(TraceNext /\ SegOk) \/ TSkip]_<<vars, l>>
 
 \* strict variant (no skipping): one state per consumed line plus the initial one
 StrictSpec == TraceInit /\ [][TraceNext]_<<vars, l>>
